@@ -125,6 +125,7 @@ def register(reg):
     _register_api_write(reg)
     _register_squash(reg)
     _register_prune(reg)
+    _register_proof(reg)
 
 
 def _register_nodes(reg):
@@ -1347,3 +1348,65 @@ def _register_prune(reg):
                                                                                   fr.locals["self"].fields["_ref_count"]],
                                                         fresh={"new_count": "unbound", "exc": "unbound"})},
                                      callee=False))
+
+
+# ---------------------------------------------------------------------------------------------------
+# get_from_proof (C03, soundness): whatever list of well-formed nodes is offered as a proof, the call either returns
+# the value the root denotes for the key or raises BadTrieProof
+
+class ProofNodes:
+    """an arbitrary finite sequence of well-formed raw nodes (the `proof` argument): each iteration of the loop over
+    it meets an arbitrary well-formed node"""
+
+    def __init__(self, E):
+        self.n = E.fresh_int("len(proof)")
+        E.assume(mk_bool(self.n.t >= 0))
+
+    def py_iter_len(self, E):
+        return self.n
+
+    def py_iter_elem(self, E, i):
+        D = z3.Const(E.fresh_name("proofnode.D"), HNode)
+        E.assume(mk_bool(z3.And(HM.hwfp(D), z3.Not(HNode.is_HBlank(D)))))
+        HM.unfold_wf(E, D)
+        return HM.materialize(E, D)
+
+    def py_truth(self):
+        return mk_bool(self.n.t > 0)
+
+
+def gfp_setup(E):
+    E.ghost["hex_model"] = True
+    return {"cls": objs.cls_of(E, "trie.hexary", "HexaryTrie"), "root_hash": objs.hash32(E, "root_hash"),
+            "key": E.fresh_seq("key", "bytes"), "proof": ProofNodes(E)}
+
+
+def gfp_cases(E, ctx):
+    from contracts.nibbles_c import B2N
+    root = HM.bytes_of(ctx.root_hash)
+    K = B2N(ops.seq_term_as(ctx.key, "int"))
+    want = HM.hlk(node_of_root(E, root), K)
+    return [Case("proven-value", returns=lambda: SSeq(want, "bytes")),
+            Case("bad-proof", raises=objs.exc(E, "BadTrieProof"))]
+
+
+def gfp_inv(E, fr, i):
+    trie = fr.locals["trie"]
+    db = trie.fields["db"]
+    E.dict_type(db, b"", b"")
+    out = []
+    if db.hooks is None:
+        # the scratch database was created by the function itself (`cls({})`): from here on it is under the store
+        # invariant of the hexary trie (every write is checked to be content addressed); it is empty at this point
+        x = z3.Const("x!empty", SeqI)
+        out.append(("scratch-database-starts-empty", mk_bool(z3.ForAll([x], z3.Not(z3.Select(db.has, x))))))
+        db.hooks = HM.HexDbInvariant()
+    return out + [("scratch-trie-does-not-prune", trie.fields.get("is_pruning") is False)]
+
+
+def _register_proof(reg):
+    H = HEX + ":HexaryTrie."
+    reg.add("hexary_proof", Contract(H + "get_from_proof", ["cls", "root_hash", "key", "proof"], gfp_cases,
+                                     setup=gfp_setup, props=("C03",), callee=False,
+                                     loops={0: LoopSpec(gfp_inv, havoc=lambda fr: [fr.locals["trie"].fields["db"]],
+                                                        fresh={"node": "unbound"})}))
